@@ -7,6 +7,7 @@ import (
 	"fmt"
 	"go/token"
 	"go/types"
+	"os"
 	"reflect"
 	"runtime/debug"
 	"strings"
@@ -14,6 +15,8 @@ import (
 
 	"golang.org/x/tools/go/ssa"
 )
+
+var debugBranch = os.Getenv("SYMGO_DEBUG_BRANCH") != ""
 
 type continuation int
 
